@@ -34,6 +34,14 @@ type StrV struct {
 	C     *string
 	Parts []*StrV // when the value is a concatenation: its operands in order
 	Args  []Value // when the value is the result of a formatting stub: the arguments formatted
+	// Alts: the value is one of finitely many concrete strings: Alts[i].S when
+	// Alts[i].Cond holds (conditions mutually exclusive), Else when none does.
+	Alts []StrAlt
+	Else string
+}
+type StrAlt struct {
+	Cond string
+	S    string
 }
 type StructV struct{ F []Value }
 type ArrayV struct{ E []Value }
